@@ -149,20 +149,30 @@ def register_qubit_ids(s: dict) -> list:
 
 # ------------------------------------------------------------------ waveforms
 def mk_wf(s: dict):
+    """s["kw"]: pass the value parameters by keyword (a different code path of ParamObj)."""
     k = s["k"]
+    kwd = bool(s.get("kw"))
     if k == "const":
-        return ConstantWaveform(s["d"], s["v"])
+        return ConstantWaveform(s["d"], value=s["v"]) if kwd else ConstantWaveform(s["d"], s["v"])
     if k == "ramp":
-        return RampWaveform(s["d"], s["a"], s["b"])
+        return RampWaveform(s["d"], start=s["a"], stop=s["b"]) if kwd else RampWaveform(s["d"], s["a"], s["b"])
     if k == "blackman":
-        return BlackmanWaveform(s["d"], s["area"])
+        return BlackmanWaveform(s["d"], area=s["area"]) if kwd else BlackmanWaveform(s["d"], s["area"])
     if k == "blackman_max":
+        if kwd:
+            return BlackmanWaveform.from_max_val(max_val=s["max"], area=s["area"])
         return BlackmanWaveform.from_max_val(s["max"], s["area"])
     if k == "kaiser":
+        if kwd:
+            extra = {"beta": s["beta"]} if "beta" in s else {}
+            return KaiserWaveform(s["d"], area=s["area"], **extra)
         if "beta" in s:
             return KaiserWaveform(s["d"], s["area"], s["beta"])
         return KaiserWaveform(s["d"], s["area"])
     if k == "kaiser_max":
+        if kwd:
+            extra = {"beta": s["beta"]} if "beta" in s else {}
+            return KaiserWaveform.from_max_val(max_val=s["max"], area=s["area"], **extra)
         if "beta" in s:
             return KaiserWaveform.from_max_val(s["max"], s["area"], s["beta"])
         return KaiserWaveform.from_max_val(s["max"], s["area"])
@@ -172,6 +182,8 @@ def mk_wf(s: dict):
             kw["times"] = s["times"]
         if s.get("interp") and s["interp"] != "PchipInterpolator":
             kw["interpolator"] = s["interp"]
+        if kwd:
+            return InterpolatedWaveform(s["d"], values=s["values"], **kw)
         return InterpolatedWaveform(s["d"], s["values"], **kw)
     if k == "custom":
         return CustomWaveform(s["samples"])
@@ -183,6 +195,21 @@ def mk_wf(s: dict):
 def mk_pulse(s: dict):
     k = s["k"]
     pps = s.get("pps", 0.0)
+    if s.get("kw"):
+        extra_kw = {} if ("pps" not in s) else {"post_phase_shift": pps}
+        if k == "pulse":
+            return Pulse(amplitude=mk_wf(s["amp"]), detuning=mk_wf(s["det"]), phase=s["phase"], **extra_kw)
+        if k == "const_pulse":
+            return Pulse.ConstantPulse(duration=s["d"], amplitude=s["amp"], detuning=s["det"],
+                                       phase=s["phase"], **extra_kw)
+        if k == "const_det":
+            return Pulse.ConstantDetuning(amplitude=mk_wf(s["amp"]), detuning=s["det"], phase=s["phase"],
+                                          **extra_kw)
+        if k == "const_amp":
+            return Pulse.ConstantAmplitude(amplitude=s["amp"], detuning=mk_wf(s["det"]), phase=s["phase"],
+                                           **extra_kw)
+        if k == "arb_phase":
+            return Pulse.ArbitraryPhase(amplitude=mk_wf(s["amp"]), phase=mk_wf(s["phase_wf"]), **extra_kw)
     extra = () if ("pps" not in s) else (pps,)
     if k == "pulse":
         return Pulse(mk_wf(s["amp"]), mk_wf(s["det"]), s["phase"], *extra)
